@@ -430,3 +430,9 @@ func mustJSON(s string, v interface{}) {
 		engine.EngineError("bad case json: %v", err)
 	}
 }
+
+func renameFile(from, to string) {
+	if err := os.Rename(from, to); err != nil {
+		engine.EngineError("rename: %v", err)
+	}
+}
